@@ -248,6 +248,12 @@ func queryWorker(prom *Prometheus, queries chan queryRequest) {
 
 func processJob(prom *Prometheus, job queryRequest) queryResult {
 	cacheKey := job.query.CacheKey()
+	// Single-flight per question as the server sees it: callers of different range windows
+	// can ask for the very same slice at the same time.
+	jobKey := "job/" + strconv.FormatUint(cacheKey, 10)
+	prom.locker.lock(jobKey)
+	defer prom.locker.unlock(jobKey)
+
 	if prom.cache != nil {
 		if cached, ok := prom.cache.get(cacheKey, job.query.Endpoint()); ok {
 			return cached.(queryResult)
